@@ -54,6 +54,7 @@ def explore_twins(task):
     explore.warm(envF, recF, dict(P, inplace=(False,), assign=False))
     depth = task["depth"]
     inits = S.initial_histories(rec, P)[: (2 if task["tier"] == "quick" else 6)]
+    bad_ctor_kwargs = next((kw for shape, kw in S.ctor_kwargs_variants(rec, dict(P, invalid=True)) if shape == "new:bad"), None)
     seen = {}
     frontier = []
     for h in inits:
@@ -96,6 +97,45 @@ def explore_twins(task):
                 case = {"rec": rec, "history": [dict(o) for o in hist], "op": dict(op)}
                 if task.get("recF"):
                     case["recF"] = task["recF"]
+                # --- extra frozen-only passes (oracle 1 + refusal only; never used to build states) ---------------
+                extra = []
+                if receiver_frozen and (S.is_inplace(op) or op["op"] in ("set", "del")) and bad_ctor_kwargs is not None:
+                    extra.append("after_failed_constructor")
+                if receiver_frozen and recF.get("opts", {}).get("post_copy") and not S.is_inplace(op):
+                    extra.append("post_copy_raises")
+                for variant in extra:
+                    wX = S.World(envF)
+                    G.CB.reset()
+                    envF.reset_tables()
+                    for hop in hist:
+                        S.execute(wX, hop)
+                    if not wX.objs:
+                        continue
+                    anc = [(fz, snap.canon([fz])) for fz in frozen_instances(wX.objs[:1])]
+                    if variant == "after_failed_constructor":
+                        try:
+                            envF.cls(**{k: envF.mk(v) for k, v in bad_ctor_kwargs.items()})
+                        except Exception:
+                            pass
+                    else:
+                        G.CB.arm = ("post_copy", G.CB.counts.get("post_copy", 0) + 1)
+                    oX = S.execute(wX, op, adopt=False)
+                    G.CB.arm = None
+                    C.inc("evaluations")
+                    C.inc("extra_frozen_runs")
+                    for a, c0 in anc:
+                        if snap.canon([a]) != c0:
+                            C.viol(violation(PROP, sig(op, "frozen_instance_changed", raised=fam(oX), variant=variant),
+                                             {"before": repr(c0)[:300], "after": repr(snap.canon([a]))[:300], "outcome": oX.brief()},
+                                             dict(case, variant=variant)))
+                            break
+                    else:
+                        if variant == "after_failed_constructor" and not oX.raised and not (
+                                op["op"] == "call" and op.get("kw", {}).get("_if") is False):
+                            oTx = S.execute(S.build(envT, hist), op, adopt=False)
+                            noop = (not oTx.raised) and oTx.value is oTx.receiver
+                            if not noop:
+                                C.viol(violation(PROP, sig(op, "inplace_did_not_raise", variant=variant), {"frozen": oX.brief()}, dict(case, variant=variant)))
                 cT0 = snap.canon([wT.objs[0]], with_types=False)
                 oT = S.execute(wT, op, adopt=False)
                 twin_noop = (not oT.raised) and oT.value is oT.receiver and snap.canon([oT.receiver], with_types=False) == cT0
@@ -233,6 +273,7 @@ register_alias_kinds()
 
 
 def alias_records():
+    G.KINDS.setdefault("aliasdot", dict(G.KINDS["int"], name="ad", lit="Alias('leaf.x', passthrough=True)"))
     return [
         G.composite("AliasLocal", [("int", "lit"), ("alias", "lit")]),
         G.composite("AliasPass", [("int", "lit"), ("aliaspt", "lit")]),
@@ -258,6 +299,15 @@ def main(run):
         recF["opts"]["sub_inherits_policy"] = True
         recF["name"] = base["name"] + "_FI"
         tasks.append({"rec": base, "recF": recF, "depth": d, "tier": run.tier, "max_states": 600})
+    # passthrough alias INTO a nested frozen value that is carried by reference (do_not_copy): both twins hold a frozen
+    # child; a write through the alias must be refused by the child in both, and never land on the shared child
+    dot = {"name": "AliasDotT", "attrs": [{"kind": "fleaf", "default": "mut"}, {"kind": "aliasdot", "default": "lit"}],
+           "opts": {"leaf_is_frozen": True, "do_not_copy": ["leaf"]}}
+    dotF = copy.deepcopy(dot)
+    dotF["name"], dotF["opts"]["frozen"] = "AliasDotF", True
+    tasks.append({"rec": dot, "recF": dotF, "depth": d, "tier": run.tier, "max_states": 600})
+    tasks.append({"rec": G.single("nums", "mut", post_copy=True), "depth": d, "tier": run.tier, "max_states": 600})
+    tasks.append({"rec": G.composite("FrozenPostCopy", [("int", "lit"), ("leaf", "mut"), ("kids", "mut")], post_copy=True), "depth": d, "tier": run.tier, "max_states": 600})
     for rec in alias_records():
         tasks.append({"rec": rec, "depth": d, "tier": run.tier, "max_states": 600, "module": "props.c07", "prop": PROP})
     for kT, kF, nm in (("leaf", "fleaf", "ParentLeaf"), ("kids", "fkids", "ParentKids")):
